@@ -5,6 +5,12 @@
 // map, apply, join, append, push_back, from_range}, record::{object ctor, set, map, permute, multiply_disjoint}.
 // For an operation documented to keep every element (push_back, concat, join, append, permute, multiply_disjoint,
 // from_array, from_range on a matching length) each id must appear exactly once in the result.
+// Rejected at compile time for lvalue arguments (so only the rvalue categories are registered): tuple::apply (first
+// tuple), tuple::concat, array::join / append / push_back (first array), record::map - each takes a size / element
+// metafunction of the unstripped reference type.
+// Violation on the unchanged tree (triaged as genuine): h_tuple_apply_rv_*: tuple::apply hands the elements of rvalue
+//   tuples to the function as const lvalues (move_if_rvalue is applied to the tuple, tuple::get has no rvalue overload),
+//   so move-only elements are rejected and a by-value function copies; tuple::map / array::apply do it right.
 //@property C05
 #include "C05_common.hpp"
 #include <fcppt/array/append.hpp>
